@@ -32,6 +32,9 @@ MACROS = [
     dict(id="enumfirst", header="#enum Lvl 5 LOW MID HIGH", use="Lvl.LOW", exp="5", sorts={"int", "num", "any"}),
     dict(id="envset", header="#env DEBUG", use="DEBUG", exp="1", sorts={"int", "num", "any"}, envs=["DEBUG"]),
     dict(id="envunset", header="#env DEBUG", use="DEBUG", exp="0", sorts={"int", "num", "any"}, envs=[]),
+    dict(id="envset2", header="#env OTHER\n#env DEBUG\n#env THIRD", use="DEBUG", exp="1", sorts={"int", "num", "any"},
+         envs=["OTHER", "DEBUG", "THIRD"]),
+    dict(id="envother", header="#env OTHER\n#env DEBUG", use="DEBUG", exp="0", sorts={"int", "num", "any"}, envs=["OTHER"]),
     dict(id="bindns", header="#bind __namespace__ NS", use="NS", exp="TEST", sorts={"block", "any"}),
     dict(id="expr", header="#define DIFF $a - $b", use="DIFF", exp="$a - $b", sorts={"expr"}),
     dict(id="expr2", header="#define PROD $aaaaaaaa * $b", use="PROD", exp="$aaaaaaaa * $b", sorts={"expr"}),
@@ -54,9 +57,10 @@ USES = [
     dict(id="range_hi", t='function t() {{ if ($x matches 1..{M}{R}) {{ say "y"; }} }}', sort="num", gl=True, gr=True, lfixed=""),
     dict(id="range_lo", t='function t() {{ if ($x matches{L}{M}..) {{ say "y"; }} }}', sort="num", gl=False, gr=True, rfixed=""),
     dict(id="cmd_arg_mid", t="function t() {{ tp @s{L}{M}{R}~ ~; }}", sort="int", gl=False, gr=False),
+    dict(id="cmd_arg_neg", t="function t() {{ tp @s ~ -{M}{R}~; }}", sort="int", gl=True, gr=False, lfixed=""),
     dict(id="cmd_arg_last", t="function t() {{ scoreboard players set @s obj{L}{M}{R}; }}", sort="int", gl=False, gr=True),
     dict(id="cmd_arg_two", t="function t() {{ effect give @a speed{L}{M}{R}{M}{R}true; }}", sort="int", gl=False, gr=False),
-    dict(id="func_kwarg", t='function t() {{ Hardcode.repeat((i)=>{{ say "$i"; }}, start=0, stop={L}{M}{R}); }}', sort="int", gl=True, gr=True),
+    dict(id="func_kwarg", t='function t() {{ Hardcode.repeat((i)=>{{ say "$i"; }}, start=0, stop=3, step={L}{M}{R}); }}', sort="int", gl=True, gr=True),
     dict(id="func_arg", t="function t() {{ $r = Math.random(1,{L}{M}{R}); }}", sort="int", gl=True, gr=True),
     dict(id="nbt_value", t="function t() {{ data modify storage a:b x set value {{v:{L}{M}{R},w:[{M},{L}{M}{R}]}}; }}", sort="int", gl=True, gr=True),
     dict(id="summon_nbt", t="function t() {{ summon zombie ~ ~ ~ {{Health:{L}{M}{R}}}; }}", sort="int", gl=True, gr=True),
